@@ -1,6 +1,7 @@
 package props
 
 import (
+	"context"
 	"fmt"
 	"github.com/orda-io/orda/server/schema"
 	"sort"
@@ -326,6 +327,75 @@ func runC11(c *core.Case) *core.Result {
 		return c.Inconclusive("background snapshot updates did not finish")
 	}
 	w.b.DB.SetPlan(nil)
+	if typ == "doc" && c.Index%3 != 0 {
+		// REST patches belong to the log too: the server rebuilds the document from its latest
+		// snapshot plus the later operations, pushes the patch under its own client id, and the
+		// snapshot update that follows must again equal the replay. In half of these cases the
+		// rebuild is held at its read of the operation log while a client's push commits.
+		race := c.Index%3 == 2
+		pgate := make(chan struct{})
+		preached := make(chan struct{}, 1)
+		var pmu sync.Mutex
+		pgated := false
+		if race {
+			w.b.DB.SetPlan(func(cmd *fakemongo.Cmd) fakemongo.Action {
+				pmu.Lock()
+				defer pmu.Unlock()
+				if !pgated && cmd.IsData() && cmd.Coll == "-_-Operations" && !isWrite(cmd.Name) {
+					pgated = true
+					return fakemongo.Action{GateBefore: pgate, OnReached: func() { preached <- struct{}{} }}
+				}
+				return fakemongo.Action{}
+			})
+		}
+		target := crdt.JS(map[string]interface{}{"patched": w.g.Tag(), "n": float64(r.Intn(100)), "list": []interface{}{w.g.Tag(), w.g.Tag()}})
+		c.Step("REST patch of %s to %s (rebuild held while a client pushes: %v)", key, target, race)
+		pdone := make(chan bed.CallOutcome, 1)
+		go func() {
+			pdone <- bed.Guard(30e9, func(ctx context.Context) error {
+				_, err := w.b.Svc.PatchDocument(ctx, &model.PatchMessage{Collection: "colA", Key: key, Json: target})
+				return err
+			})
+		}()
+		if race {
+			select {
+			case <-preached:
+				d := dts[r.Intn(len(dts))]
+				w.localOp(d)
+				if _, sig, msg := w.sync(d.C); sig != "" {
+					close(pgate)
+					<-pdone
+					return verdict(c, "patch-race:", sig, msg)
+				}
+				overlap = true
+				c.Count("client_pushes_committed_inside_a_rest_patch", 1)
+			case <-time.After(3 * time.Second):
+				c.Count("patch_rebuild_read_not_seen", 1)
+			}
+			close(pgate)
+		}
+		pout := <-pdone
+		w.b.DB.SetPlan(nil)
+		if pout.Panic != "" {
+			return c.Violation("server-panic", "PatchDocument panicked: %s", pout.Panic)
+		}
+		if pout.TimedOut {
+			return c.Inconclusive("PatchDocument watchdog")
+		}
+		c.Count("rest_patches_in_history", 1)
+		if !w.b.Idle(30 * time.Second) {
+			return c.Inconclusive("background snapshot updates did not finish")
+		}
+		// everybody pulls the patch
+		for _, cl := range w.cls {
+			if _, sig, msg := w.sync(cl); sig != "" {
+				return verdict(c, "after-patch:", sig, msg)
+			}
+		}
+		if !w.b.Idle(30 * time.Second) {
+			return c.Inconclusive("idle")
+		}
+	}
 	dd := w.b.Datatype(w.colNum, key)
 	if dd == nil {
 		return c.Violation("no-datatype-doc", "datatype document missing")
